@@ -131,7 +131,7 @@ def build_corpus(ctx):
     thorough = ctx.tier == "thorough"
     out = []
     pats = (irgen_wasm.patterns(random.Random(rng.randrange(1 << 30)), thorough) + irgen_wasm.cast_patterns()
-            + irgen_wasm.cond_patterns())
+            + irgen_wasm.cond_patterns() + irgen_wasm.layout_patterns() + irgen_wasm.fptr_patterns())
     for key, make, fn, ptys, ext in pats:
         prng = random.Random(sum(ord(ch) * (k + 1) for k, ch in enumerate(key)))
         nv = 6 if thorough else (2 if key.startswith("cond") else 5)
@@ -140,6 +140,10 @@ def build_corpus(ctx):
         for t in set(ptys):
             lo, hi = (-(1 << (BITS[t] - 1)), (1 << (BITS[t] - 1)) - 1) if t[0] == "i" else (0, (1 << BITS[t]) - 1)
             vecs += [[hi] * len(ptys), [lo] + [hi] * (len(ptys) - 1), [hi, 1][:len(ptys)], [hi // 2 + 1, 2][:len(ptys)]]
+            if key.startswith("fptr"):
+                vecs = [[s_, x_] for s_ in (0, 1, 2, 3) for x_ in (2, 10)]
+            if key.startswith("layout"):
+                vecs = vecs[:3] + [[0x11223344, 0x55667788]]
             if key.startswith("cond"):
                 vecs += [[lo, lo], [hi, lo], [5, 5], [4, 5], [5, 4], [lo + 1, lo], [hi - 1, hi]]
         out.append({"key": key, "make": make, "fn": fn, "ptys": ptys, "vecs": vecs, "ext": [], "src": "harness/irgen_wasm.py " + key})
